@@ -73,7 +73,27 @@ def key3(k):
     return ((k >> 16) & 255, (k >> 8) & 255, k & 255)
 
 
+def parse_scan(tok):
+    """s<f|r>[h<n>]  f<f|r><k>[h<n>]  R<k>-<k>[h<n>]"""
+    import re
+    halt = 0
+    m = re.search(r"h(\d+)$", tok)
+    if m:
+        halt = int(m.group(1))
+        tok = tok[:m.start()]
+    if tok[0] == "s":
+        return "all", (0, 0, 0), (0, 0, 0), tok[1] == "f", halt
+    if tok[0] == "f":
+        return "from", key3(int(tok[2:])), (0, 0, 0), tok[1] == "f", halt
+    a, b = tok[1:].split("-")
+    return "range", key3(int(a)), key3(int(b)), True, halt
+
+
 def parse_op(tok, t, i):
+    if tok[0] in "sfR":
+        kind, fr, to, fwd, halt = parse_scan(tok)
+        return ('[op |-> "scan", k |-> <<>>, v |-> 0, kind |-> "%s", from |-> %s, to |-> %s, fwd |-> %s, halt |-> %d]'
+                % (kind, tla_seq(fr), tla_seq(to), "TRUE" if fwd else "FALSE", halt))
     kind = {"g": "get", "i": "ins", "r": "rem"}[tok[0]]
     k = key3(int(tok[1:]))
     return '[op |-> "%s", k |-> %s, v |-> %d]' % (kind, tla_seq(k), 100 * (t + 1) + i + 1)
@@ -90,21 +110,24 @@ def generate(name, init, progs, caps=REAL_CAPS, qeach=True, flags=None, max_extr
     nn = b.nid
     mod = "OlcArtMC_" + name
     fl = {"LockRemainingChildOnCollapse": True, "RecheckParentAfterAdd": True, "GetRechecksParent": True,
-          "ObsoleteReplacedNode": True, "RemoveChecksNodeBeforeChildLock": True}
+          "ObsoleteReplacedNode": True, "RemoveChecksNodeBeforeChildLock": True, "IterChecksAfterNextRead": True}
     fl.update(flags or {})
+    scans = any(tok[0] in "sfR" for p in progs for tok in p)
     with open(os.path.join(outdir, mod + ".tla"), "w") as f:
-        f.write("---- MODULE %s ----\nEXTENDS OlcArt\n" % mod)
+        f.write("---- MODULE %s ----\nEXTENDS %s\n" % (mod, "OlcArtIter" if scans else "OlcArt"))
         f.write("MCInitNodes == %s\n" % tla_fun(b.nodes, str, node_tla))
         f.write("MCInitAbs == %s\n" % tla_fun(vals, tla_seq, str))
         f.write("MCPrograms == <<%s>>\n" % ", ".join(
             "<<" + ", ".join(parse_op(tok, t, i) for i, tok in enumerate(p)) + ">>" for t, p in enumerate(progs)))
         f.write("MCCaps == %s\n====\n" % tla_seq(caps))
     with open(os.path.join(outdir, mod + ".cfg"), "w") as f:
-        f.write("SPECIFICATION Spec\nCONSTANTS\n  Threads = {%s}\n  KeyLen = 3\n  Caps <- MCCaps\n  MaxNodes = %d\n  MaxVersion = %d\n"
+        f.write("SPECIFICATION " + ("SpecI" if scans else "Spec") + "\nCONSTANTS\n  Threads = {%s}\n  KeyLen = 3\n  Caps <- MCCaps\n  MaxNodes = %d\n  MaxVersion = %d\n"
                 % (",".join(str(i + 1) for i in range(len(progs))), nn + max_extra, max_version))
         f.write("  InitNodes <- MCInitNodes\n  InitRoot = %d\n  InitNext = %d\n  InitAbs <- MCInitAbs\n  Programs <- MCPrograms\n" % (root, nn + 1))
         f.write("  QEach = %s\n" % ("TRUE" if qeach else "FALSE"))
         for k, v in fl.items():
+            if k == "IterChecksAfterNextRead" and not scans:
+                continue
             f.write("  %s = %s\n" % (k, "TRUE" if v else "FALSE"))
         f.write("INVARIANTS NoBadOutcome OneWriterPerNode NoLockHeldAtReturn NoOrphanLock SpinnersHoldNothing FinalTreeIsMap NoReachableRetired NothingLeaked ShapeOK\n")
         f.write("CONSTRAINT VersionBound\nCHECK_DEADLOCK FALSE\n")
